@@ -125,6 +125,51 @@ def applySegMods (σ : Syll) (al : Alphas) (mods : Modifiers) (startPos : Nat) :
   let (σ', lc) ← ({ σ with segs := segs } : Syll).applySupras al' mods.suprs startPos
   pure (σ', al', lc)
 
+/-- `apply_supras_to_run` / `apply_seg_mods_to_run` (syll.rs, after the repair of D33): the same as `applyLength`,
+    `applySupras`, `applySegMods` for a run whose length `L` the caller knows - `replace_segment` and `insert_segment`
+    pass 1, so that a segment just written does not borrow length from an equal neighbour.  (`apply_supras` and
+    `apply_seg_mods` themselves are these with `L = get_seg_length_at(pos)`: `applySupras_eq_run`, `applySegMods_eq_run`.) -/
+def applyLengthL (σ : Syll) (al : Alphas) (mods : SupraSegs) (pos L : Nat) : Res (List Seg × Int) :=
+  match σ.segs[pos]? with
+  | none => .panic "apply_supras: self.segments[pos]"
+  | some seg =>
+    let grow (t : Nat) : List Seg × Int := growTo σ.segs pos seg L t
+    let shrink (t : Nat) : List Seg × Int := shrinkTo σ.segs pos L t
+    match mods.long, mods.overlong with
+    | none, none => .ok (σ.segs, 0)
+    | none, some v => do
+      let b ← v.asBool al
+      pure (if b then grow 3 else shrink 2)
+    | some l, none => do
+      let b ← l.asBool al
+      pure (if b then grow 2 else shrink 1)
+    | some l, some v => do
+      let bl ← l.asBool al
+      let bv ← v.asBool al
+      match bl, bv with
+      | true, true => pure (grow 3)
+      | true, false => pure (if L > 2 then shrink 2 else grow 2)
+      | false, false => pure (shrink 1)
+      | false, true => .err "OverlongPosLongNeg"
+
+def applySuprasL (σ : Syll) (al : Alphas) (mods : SupraSegs) (pos L : Nat) : Res (Syll × Int) := do
+  let (segs, lc) ← σ.applyLengthL al mods pos L
+  let σ' ← ({ σ with segs := segs } : Syll).applySyllMods al mods
+  pure (σ', lc)
+
+def applySegModsL (σ : Syll) (al : Alphas) (mods : Modifiers) (startPos L : Nat) : Res (Syll × Alphas × Int) := do
+  let (segs, al') ← applyModsRun mods.nodes mods.feats L startPos σ.segs al
+  let (σ', lc) ← ({ σ with segs := segs } : Syll).applySuprasL al' mods.suprs startPos L
+  pure (σ', al', lc)
+
+theorem applyLength_eq_run (σ : Syll) (al : Alphas) (mods : SupraSegs) (pos : Nat) :
+    σ.applyLength al mods pos = σ.applyLengthL al mods pos (σ.segLengthAt pos) := by
+  unfold applyLength applyLengthL; rfl
+
+theorem applySupras_eq_run (σ : Syll) (al : Alphas) (mods : SupraSegs) (pos : Nat) :
+    σ.applySupras al mods pos = σ.applySuprasL al mods pos (σ.segLengthAt pos) := by
+  unfold applySupras applySuprasL; rw [applyLength_eq_run]
+
 /-- `replace_segment` (syll.rs:46-63) -/
 def replaceSegment (σ : Syll) (al : Alphas) (pos : Nat) (seg : Seg) (mods : Option Modifiers) : Res (Syll × Alphas × Int) :=
   let L := σ.segLengthAt pos
@@ -135,7 +180,7 @@ def replaceSegment (σ : Syll) (al : Alphas) (pos : Nat) (seg : Seg) (mods : Opt
     match mods with
     | none => .ok (σ1, al, lc0)
     | some m => do
-      let (σ2, al', lc) ← σ1.applySegMods al m pos
+      let (σ2, al', lc) ← σ1.applySegModsL al m pos 1
       pure (σ2, al', lc0 + lc)
   else .panic "replace_segment: self.segments[pos]"
 
@@ -145,7 +190,7 @@ def insertSegment (σ : Syll) (al : Alphas) (pos : Nat) (seg : Seg) (mods : Opti
   let σ1 : Syll := { σ with segs := segs1 }
   match mods with
   | none => .ok (σ1, al, 0)
-  | some m => σ1.applySegMods al m pos
+  | some m => σ1.applySegModsL al m pos 1
 
 end Syll
 
